@@ -66,6 +66,16 @@ class Run:
         except AnalysisError as e:
             self.deferred.append(str(e))
             return None
+        except (KeyError, AttributeError, IndexError, TypeError, ValueError, StopIteration,
+                AssertionError) as e:
+            # the clause met a shape of code it was not written for (a method that is
+            # gone, a call with other arguments): same standing as an AnalysisError
+            import traceback
+            tb = traceback.extract_tb(e.__traceback__)
+            at = f"{os.path.basename(tb[-1].filename)}:{tb[-1].lineno}" if tb else "?"
+            self.deferred.append(f"{getattr(clause, '__name__', 'clause')}: anchor not found "
+                                 f"({type(e).__name__}: {e} at {at})")
+            return None
 
     def rule(self, rule_id, doc, minimum=1):
         """Declare a rule with the number of sites confirmed by hand."""
